@@ -95,7 +95,28 @@ Proof.
   replace (Z.max (q - 1) 0) with (q - 1) by lia. replace (Z.max 0 (- - q)) with q by lia. ring.
 Qed.
 
-(* EXACTLY when: the step divides the span, or the loop has a single iteration *)
+(* the index substituted after the repair, (stop - start - sign(step)) // step, is (number of iterations) - 1 *)
+Lemma last_index_arith n s : s <> 0 -> 0 < - ((- n) / s) -> (n - Z.sgn s) / s = - ((- n) / s) - 1.
+Proof.
+  intros Hs Hc. destruct (Z_lt_le_dec 0 s) as [Hp|Hn].
+  - rewrite Z.sgn_pos by lia.
+    pose proof (Z.div_mod (n - 1) s Hs). pose proof (Z.div_mod (-n) s Hs). pose proof (Z.mod_pos_bound (n - 1) s Hp).
+    pose proof (Z.mod_pos_bound (-n) s Hp). nia.
+  - assert (Hn' : s < 0) by lia. rewrite Z.sgn_neg by lia.
+    pose proof (Z.div_mod (n - -1) s Hs). pose proof (Z.div_mod (-n) s Hs). pose proof (Z.mod_neg_bound (n - -1) s Hn').
+    pose proof (Z.mod_neg_bound (-n) s Hn'). nia.
+Qed.
+
+Lemma last_index_ok a o s ks : py_range a o s = Some ks -> ks <> [] -> last_index a o s = last ks 0.
+Proof.
+  intros H Hne. rewrite (py_range_last_ceil _ _ _ _ H Hne).
+  destruct (py_range_spec _ _ _ _ H) as (Hs & Hlen & _).
+  rewrite range_len_ceil in Hlen by assumption. rewrite Qceil_div in * by assumption.
+  assert (Hpos : 0 < - (- (o - a) / s)) by (destruct ks; [congruence|cbn [length] in Hlen; lia]).
+  unfold last_index. rewrite (last_index_arith (o - a) s Hs Hpos). f_equal. f_equal. lia.
+Qed.
+
+(* the PRE-REPAIR (floor) index was right EXACTLY when: the step divides the span, or the loop has a single iteration *)
 Lemma floor_exact_arith n s : s <> 0 -> 0 < - ((- n) / s) ->
   (Z.max (n / s - 1) 0 * s = (- ((- n) / s) - 1) * s <-> (n mod s = 0 \/ - ((- n) / s) = 1)).
 Proof.
